@@ -39,7 +39,14 @@ Proof. induction l as [|x l IH]; simpl; intro H; [exact H|]. inversion H; subst.
 (* ---- jump hash ---- *)
 Section Jump.
   Variable nextj : Z -> Z -> Z.
-  Hypothesis nextj_gt : forall b k, b < nextj b k.
+  (* the expression is only ever evaluated on bucket numbers below the number of
+     buckets and on 64-bit keys *)
+  Variable N : Z.
+  Hypothesis N_pos : 1 <= N.
+  Hypothesis nextj_gt : forall b k, 0 <= b < N -> 0 <= k < two64 -> b < nextj b k.
+
+  Lemma key_range key : 0 <= jump_key_step key mod two64 < two64.
+  Proof. apply Z.mod_pos_bound. reflexivity. Qed.
 
   Lemma jump_loop_mono f : forall b j key n r,
     jump_loop nextj f b j key n = Some r -> jump_loop nextj (S f) b j key n = Some r.
@@ -50,44 +57,46 @@ Section Jump.
   Qed.
 
   Lemma jump_loop_spec f : forall b j key n,
+    0 <= j -> n <= N ->
     (Z.to_nat (n - j) < f)%nat ->
     exists r, jump_loop nextj f b j key n = Some r
               /\ (j < n -> j <= r < n) /\ (n <= j -> r = b).
   Proof.
-    induction f as [|f IH]; intros b j key n Hf; [lia|].
+    induction f as [|f IH]; intros b j key n Hj0 HnN Hf; [lia|].
     cbn [jump_loop]. destruct (j <? n) eqn:E.
     - apply Z.ltb_lt in E.
       set (key' := jump_key_step key mod two64).
-      pose proof (nextj_gt j key') as Hj.
-      destruct (IH j (nextj j key') key' n) as [r [Hr [H1 H2]]]; [lia|].
+      pose proof (nextj_gt j key' ltac:(lia) (key_range key)) as Hj.
+      destruct (IH j (nextj j key') key' n) as [r [Hr [H1 H2]]]; [lia|lia|lia|].
       exists r. split; [exact Hr|]. split; [|lia]. intros _.
       destruct (Z_lt_le_dec (nextj j key') n) as [Hlt|Hge]; [specialize (H1 Hlt); lia | specialize (H2 Hge); lia].
     - apply Z.ltb_ge in E. exists b. split; [reflexivity|]. split; [lia | reflexivity].
   Qed.
 
   Lemma jump_range key n :
-    1 <= n -> exists r, jump nextj key n = Some r /\ 0 <= r < n.
+    1 <= n <= N -> exists r, jump nextj key n = Some r /\ 0 <= r < n.
   Proof.
     intro Hn. unfold jump.
-    destruct (jump_loop_spec (S (Z.to_nat n)) (-1) 0 key n) as [r [Hr [H1 _]]]; [lia|].
+    destruct (jump_loop_spec (S (Z.to_nat n)) (-1) 0 key n) as [r [Hr [H1 _]]]; [lia|lia|lia|].
     exists r. split; [exact Hr | apply H1; lia].
   Qed.
 
   Lemma jump_loop_succ f : forall b j key n,
+    0 <= j -> n + 1 <= N ->
     (Z.to_nat (n + 1 - j) < f)%nat ->
     jump_loop nextj f b j key (n + 1) = jump_loop nextj f b j key n
     \/ jump_loop nextj f b j key (n + 1) = Some n.
   Proof.
-    induction f as [|f IH]; intros b j key n Hf; [lia|].
+    induction f as [|f IH]; intros b j key n Hj0 HnN Hf; [lia|].
     cbn [jump_loop].
     destruct (j <? n) eqn:E.
     - apply Z.ltb_lt in E. assert (E' : (j <? n + 1) = true) by (apply Z.ltb_lt; lia).
       rewrite E'. set (key' := jump_key_step key mod two64).
-      pose proof (nextj_gt j key'). apply IH. lia.
+      pose proof (nextj_gt j key' ltac:(lia) (key_range key)). apply IH; lia.
     - apply Z.ltb_ge in E. destruct (j <? n + 1) eqn:E'.
       + apply Z.ltb_lt in E'. assert (j = n) by lia. subst j. right.
         set (key' := jump_key_step key mod two64).
-        pose proof (nextj_gt n key') as Hj.
+        pose proof (nextj_gt n key' ltac:(lia) (key_range key)) as Hj.
         destruct f as [|f]; [lia|]. cbn [jump_loop].
         assert (E2 : (nextj n key' <? n + 1) = false) by (apply Z.ltb_ge; lia).
         rewrite E2. reflexivity.
@@ -97,15 +106,15 @@ Section Jump.
   (* consistency: growing the number of buckets by one either keeps the bucket
      or moves the key to the new bucket *)
   Lemma jump_consistent key n :
-    1 <= n -> jump nextj key (n + 1) = jump nextj key n \/ jump nextj key (n + 1) = Some n.
+    1 <= n -> n + 1 <= N -> jump nextj key (n + 1) = jump nextj key n \/ jump nextj key (n + 1) = Some n.
   Proof.
-    intro Hn.
-    destruct (jump_range key n Hn) as [r [Hr0 _]].
+    intros Hn HnN.
+    destruct (jump_range key n ltac:(lia)) as [r [Hr0 _]].
     unfold jump in *.
     assert (Hfuel : S (Z.to_nat (n + 1)) = S (S (Z.to_nat n))) by lia.
     rewrite Hfuel.
     pose proof (jump_loop_mono _ _ _ _ _ _ Hr0) as Hr1.
-    destruct (jump_loop_succ (S (S (Z.to_nat n))) (-1) 0 key n) as [H|H]; [lia| |].
+    destruct (jump_loop_succ (S (S (Z.to_nat n))) (-1) 0 key n) as [H|H]; [lia|lia|lia| |].
     - left. rewrite H, Hr1, Hr0. reflexivity.
     - right. exact H.
   Qed.
@@ -113,27 +122,30 @@ Section Jump.
   (* ---- selector ---- *)
 
   Lemma pick_jump_some addrs k :
-    addrs <> [] -> exists a, pick_jump nextj addrs k = Some a /\ In a addrs.
+    addrs <> [] -> Z.of_nat (List.length addrs) <= N ->
+    exists a, pick_jump nextj addrs k = Some a /\ In a addrs.
   Proof.
-    intro Hne. unfold pick_jump.
+    intros Hne HN. unfold pick_jump.
     destruct (jump_range (snd k) (Z.of_nat (List.length addrs))) as [r [Hr Hrange]].
-    { destruct addrs; [congruence | simpl List.length; lia]. }
+    { destruct addrs; [congruence | simpl List.length in *; lia]. }
     rewrite Hr.
     destruct (nth_error addrs (Z.to_nat r)) as [a|] eqn:E.
     - exists a. split; [reflexivity|]. eapply nth_error_In; eauto.
     - apply nth_error_None in E. lia.
   Qed.
 
-  Lemma pick_some addrs k : addrs <> [] -> exists a, pick nextj addrs k = Some a /\ In a addrs.
+  Lemma pick_some addrs k :
+    addrs <> [] -> Z.of_nat (List.length addrs) <= N ->
+    exists a, pick nextj addrs k = Some a /\ In a addrs.
   Proof.
-    intro Hne. destruct addrs as [|a [|b t]]; [congruence| |].
+    intros Hne HN. destruct addrs as [|a [|b t]]; [congruence| |].
     - exists a. split; [reflexivity | left; reflexivity].
-    - apply pick_jump_some. discriminate.
+    - apply pick_jump_some; [discriminate | exact HN].
   Qed.
 
   Lemma pick_jump_single a k : pick_jump nextj [a] k = Some a.
   Proof.
-    destruct (pick_jump_some [a] k) as [x [Hx Hin]]; [discriminate|].
+    destruct (pick_jump_some [a] k) as [x [Hx Hin]]; [discriminate | simpl; lia|].
     destruct Hin as [Hin|[]]. subst. exact Hx.
   Qed.
 
@@ -146,18 +158,19 @@ Section Jump.
 
   (* pushing a server at the end of the list only moves keys onto it *)
   Lemma pick_push addrs s k :
+    Z.of_nat (List.length addrs) + 1 <= N ->
     pick nextj (addrs ++ [s]) k = pick nextj addrs k \/ pick nextj (addrs ++ [s]) k = Some s.
   Proof.
-    destruct addrs as [|a t].
+    intro HN. destruct addrs as [|a t].
     - right. reflexivity.
     - rewrite (pick_is_jump (a :: t)) by discriminate.
       rewrite (pick_is_jump ((a :: t) ++ [s])) by discriminate.
-      unfold pick_jump. rewrite app_length. simpl List.length.
+      unfold pick_jump. rewrite app_length. simpl List.length in *.
       replace (Z.of_nat (S (List.length t) + 1)) with (Z.of_nat (S (List.length t)) + 1) by lia.
-      set (n := Z.of_nat (S (List.length t))).
-      destruct (jump_consistent (snd k) n) as [H|H]; [unfold n; lia| |].
+      set (n := Z.of_nat (S (List.length t))) in *.
+      destruct (jump_consistent (snd k) n) as [H|H]; [unfold n; lia|lia| |].
       + left. rewrite H.
-        destruct (jump_range (snd k) n) as [r [Hr Hrange]]; [unfold n; lia|].
+        destruct (jump_range (snd k) n) as [r [Hr Hrange]]; [unfold n in *; lia|].
         rewrite Hr. apply nth_error_app1. simpl List.length. unfold n in Hrange. lia.
       + right. rewrite H. unfold n. rewrite Nat2Z.id.
         rewrite nth_error_app2 by (simpl; lia).
@@ -207,26 +220,26 @@ Section Jump.
       + exfalso. clear -H. induction keys as [|k' keys IHk]; simpl in H; [discriminate | auto].
   Qed.
 
-  Lemma batch_fold_some addrs keys : addrs <> [] -> forall m0,
+  Lemma batch_fold_some addrs keys : addrs <> [] -> Z.of_nat (List.length addrs) <= N -> forall m0,
     exists m, fold_left (fun om k =>
       match om, pick_jump nextj addrs k with
       | Some m, Some a => Some (mset m a (mget m a ++ [k]))
       | _, _ => None
       end) keys (Some m0) = Some m.
   Proof.
-    intro Hne. induction keys as [|k keys IH]; intros m0; simpl.
+    intros Hne HN. induction keys as [|k keys IH]; intros m0; simpl.
     - exists m0. reflexivity.
-    - destruct (pick_jump_some addrs k Hne) as [a [Ha _]]. rewrite Ha. apply IH.
+    - destruct (pick_jump_some addrs k Hne HN) as [a [Ha _]]. rewrite Ha. apply IH.
   Qed.
 
   (* a key is under server [a] in the batch result iff PickServer sends it to [a];
      order and multiplicity of the keys are preserved *)
   Lemma batch_eq_single addrs keys :
-    addrs <> [] ->
+    addrs <> [] -> Z.of_nat (List.length addrs) <= N ->
     exists m, pick_for_keys nextj addrs keys = Some m
       /\ forall a, mget m a = filter (fun k => ostr_eqb (pick nextj addrs k) (Some a)) keys.
   Proof.
-    intro Hne. destruct addrs as [|a0 [|a1 t]]; [congruence| |].
+    intros Hne HN. destruct addrs as [|a0 [|a1 t]]; [congruence| |].
     - exists [(a0, keys)]. split; [reflexivity|]. intro a. simpl.
       destruct (str_eqb a a0) eqn:E.
       + apply str_eqb_eq in E. subst. symmetry. apply filter_all_true.
@@ -234,7 +247,7 @@ Section Jump.
       + assert (E' : str_eqb a0 a = false).
         { apply str_eqb_neq. apply str_eqb_neq in E. congruence. }
         symmetry. apply filter_all_false. intros k. exact E'.
-    - destruct (batch_fold_some (a0 :: a1 :: t) keys ltac:(discriminate) []) as [m Hm].
+    - destruct (batch_fold_some (a0 :: a1 :: t) keys ltac:(discriminate) HN []) as [m Hm].
       exists m. split; [exact Hm|]. intro a.
       rewrite (batch_fold _ _ _ _ Hm a). reflexivity.
   Qed.
@@ -438,17 +451,19 @@ Proof. vm_compute. split; reflexivity. Qed.
 (* ---- the check's predicates hold of the model's outputs ---- *)
 Section Preds.
   Variable nextj : Z -> Z -> Z.
-  Hypothesis nextj_gt : forall b k, b < nextj b k.
+  Variable N : Z.
+  Hypothesis N_pos : 1 <= N.
+  Hypothesis nextj_gt : forall b k, 0 <= b < N -> 0 <= k < two64 -> b < nextj b k.
 
   Lemma jump_outs_ok_model key : forall outs n prev,
-    1 <= n ->
+    1 <= n -> n + Z.of_nat (List.length outs) <= N + 1 ->
     (match prev with None => True | Some p => 2 <= n /\ jump nextj key (n - 1) = Some p end) ->
     map Some outs = map (jump nextj key) (seqZ n (List.length outs)) ->
     jump_outs_ok n prev outs = true.
   Proof.
-    induction outs as [|o outs IH]; intros n prev Hn Hprev Hmap; [reflexivity|].
-    simpl in Hmap. inversion Hmap as [[Ho Hrest]]. clear Hmap.
-    destruct (jump_range nextj nextj_gt key n Hn) as [r [Hr Hrange]].
+    induction outs as [|o outs IH]; intros n prev Hn HN Hprev Hmap; [reflexivity|].
+    simpl in Hmap. inversion Hmap as [[Ho Hrest]]. clear Hmap. simpl List.length in HN.
+    destruct (jump_range nextj N nextj_gt key n ltac:(lia)) as [r [Hr Hrange]].
     rewrite Hr in Ho. inversion Ho; subst o. clear Ho.
     cbn [jump_outs_ok].
     assert (E1 : (0 <=? r) = true) by (apply Z.leb_le; lia).
@@ -456,31 +471,37 @@ Section Preds.
     rewrite E1, E2. cbn [andb].
     apply andb_true_iff. split.
     - destruct prev as [p|]; [|reflexivity]. destruct Hprev as [Hn2 Hp].
-      destruct (jump_consistent nextj nextj_gt key (n - 1)) as [H|H]; [lia| |];
+      destruct (jump_consistent nextj N nextj_gt key (n - 1)) as [H|H]; [lia|lia| |];
         replace (n - 1 + 1) with n in H by lia; rewrite Hr in H.
       + rewrite Hp in H. inversion H; subst. rewrite Z.eqb_refl. reflexivity.
       + inversion H; subst. rewrite Z.eqb_refl. apply orb_true_r.
-    - apply IH; [lia| |exact Hrest].
+    - apply IH; [lia|lia| |exact Hrest].
       split; [lia|]. replace (n + 1 - 1) with n by lia. exact Hr.
   Qed.
 
   Lemma jump_pred key tab outs :
+    Z.of_nat (List.length outs) <= N ->
     map Some outs = map (jump nextj key) (seqZ 1 (List.length outs)) ->
     pred_ok (CJump key tab outs) = true.
-  Proof. intro H. simpl. apply (jump_outs_ok_model key); [lia | exact I | exact H]. Qed.
+  Proof. intros HN H. simpl. apply (jump_outs_ok_model key); [lia | lia | exact I | exact H]. Qed.
 
   Lemma ostr_eqb_refl o : ostr_eqb o o = true.
   Proof. destruct o as [a|]; simpl; [apply str_eqb_refl | reflexivity]. Qed.
 
+  Lemma set_servers_length l : List.length (set_servers l) = List.length l.
+  Proof. symmetry. apply Permutation_length. apply go_isort_perm. Qed.
+
   Lemma add_pred servers new keys tab :
+    Z.of_nat (List.length servers) + 1 <= N ->
     set_servers (servers ++ [new]) = set_servers servers ++ [new] ->
     pred_ok (CAdd servers new keys tab
                (map (pick nextj (set_servers servers)) keys)
                (map (pick nextj (set_servers (servers ++ [new]))) keys)) = true.
   Proof.
-    intro E. simpl. rewrite E. induction keys as [|k keys IH]; simpl; [reflexivity|].
+    intros HN E. simpl. rewrite E. induction keys as [|k keys IH]; simpl; [reflexivity|].
     rewrite IH, andb_true_r.
-    destruct (pick_push nextj nextj_gt (set_servers servers) new k) as [H|H]; rewrite H.
+    destruct (pick_push nextj N N_pos nextj_gt (set_servers servers) new k) as [H|H];
+      [rewrite set_servers_length; exact HN | |]; rewrite H.
     - rewrite ostr_eqb_refl. reflexivity.
     - simpl. rewrite str_eqb_refl. apply orb_true_r.
   Qed.
